@@ -245,6 +245,17 @@ def rich_ufo(rng, kerning=True, anchors=True, features=True, composites=True, fa
 
 def rich_family(rng, n_masters=2, axes=1, **kw):
     """Compatible 2-3 master family on a 'Weight' axis (and optionally 'Width')."""
+    # (a base whose perturbations cannot be kept inside the exact domain is drawn again: this only happens where the call
+    #  used to fail, so the random streams of all other cases stay what they were)
+    for _attempt in range(20):
+        try:
+            return _rich_family(rng, n_masters, axes, **kw)
+        except RuntimeError:
+            continue
+    raise RuntimeError("could not build a family")
+
+
+def _rich_family(rng, n_masters=2, axes=1, **kw):
     base = rich_ufo(rng, style="Regular", **kw)
     masters = [{"loc": {"Weight": 400}, "ufo": base, "name": "Regular"}]
     locs = [{"Weight": 700}] if n_masters == 2 else [{"Weight": 700}, {"Weight": 550}]
